@@ -1042,7 +1042,7 @@ def gen_obj_ops(rng, n):
     for _ in range(rng.randint(12, 40)):
         r = rng.random()
         if r < 0.3 and nouts:
-            ops.append(["m", rng.randint(0, nouts - 1), rng.choice([1, 8, -24, 56])])
+            ops.append(["m", rng.randint(0, nouts - 1), rng.choice([8, 16, -24, 56])])
             continue
         k = rng.random()
         if k < 0.3:
@@ -1084,7 +1084,8 @@ def run_obj_ops(obj, data8, ops):
             ok = 0
             if j < len(outs):
                 try:
-                    outs[j] += delta / 8.0
+                    a = outs[j]
+                    a += (delta // 8 if a.dtype.kind in "iu" else delta / 8.0)
                     ok = 1
                 except (ValueError, TypeError):
                     ok = 0
@@ -1227,8 +1228,9 @@ def run_obj_checks(run, nworlds):
                 ops = gen_obj_ops(run.rng, len(data8))
                 case = dict(kind="obj", obj=kind, feat=feat, data8=data8, ops=ops)
                 res = run_obj_ops(obj, data8, ops)
-                res["render"] = "(1, %s, %s)" % (common.zlist(data8),
-                                                 common.clist(res["rops"]))
+                res["render"] = "(1, %d, %s, %s)" % (
+                    0 if kind == "basin" else 1, common.zlist(data8),
+                    common.clist(res["rops"]))
                 results.append((case, res))
             finally:
                 for o in reversed(objs):
